@@ -26,7 +26,7 @@ impl FunctionDefinition for Boom {
         _: Option<&mut FunctionDefinitionContext>,
     ) -> Result<(), FunctionParamError> {
         if self.0 == "parse" {
-            panic!("boom in check_param");
+            panic!("boom\0in check_param");
         }
         Ok(())
     }
@@ -42,13 +42,13 @@ impl FunctionDefinition for Boom {
         _: Option<FunctionDefinitionContext>,
     ) -> wirefilter::CompiledFunction {
         if self.0 == "compile" {
-            panic!("boom in compile");
+            panic!("boom\0in compile");
         }
         let when = self.0;
         Box::new(move |args| {
             let _: Vec<_> = args.collect();
             if when == "match" {
-                panic!("boom in match");
+                panic!("boom\0in match");
             }
             Some(LhsValue::Bool(true))
         })
@@ -723,15 +723,15 @@ pub fn replay_fficatch(v: &Value) -> (Value, Vec<String>) {
                 }
                 let text = String::from_utf8_lossy(&gb).to_string();
                 let want = match (kind, exp["site"].as_str().unwrap_or("")) {
-                    ("panic", "parse") => "boom in check_param",
-                    ("panic", "compile") => "boom in compile",
-                    ("panic", "match") => "boom in match",
+                    ("panic", "parse") => "boom\x1ain check_param",
+                    ("panic", "compile") => "boom\x1ain compile",
+                    ("panic", "match") => "boom\x1ain match",
                     _ => "",
                 };
                 if kind == "panic" && !text.contains(want) {
                     diffs.push(format!("after call {}: thread {} last error {:?} does not carry the panic message {:?}", k + 1, t + 1, text, want));
                 }
-                if kind == "err" && text.contains("boom in") {
+                if kind == "err" && text.contains("boom") {
                     diffs.push(format!("after call {}: thread {} last error {:?} is a panic text, an error text was expected", k + 1, t + 1, text));
                 }
             }
